@@ -39,3 +39,39 @@ Theorem C04_original_partial : forall v n, len v < 1073741823 -> ascii v = true 
   chk_C04 (SOriginal v n) (api_tree (SOriginal v n) []) = 0.
 Proof. exact original_chk_C04. Qed.
 Print Assumptions C04_original_partial.
+
+(* ---- trees: Raw* and OriginalSource leaves under ConcatSource nodes to any depth ---- *)
+From RS Require Proofs.ProvConcatBytes Proofs.ProvConcatSegs Proofs.ProvConcatTables Proofs.ProvConcatLines.
+
+(* columns = true: every mapped segment of map() starts exactly on a byte whose true origin
+   (Sem/Prov.v) is the segment's original location; every original byte resolves to its own file and
+   line with a column not after its own - exactly its own at statement starts -; raw text is unmapped.
+   fields_small: the encoder's domain (every field of a streamed segment below 2^30) *)
+Theorem C04_concat_columns : forall st s,
+  ProvConcatBytes.cshape s = true -> treeA s = true -> ProvConcatBytes.fields_small st s ->
+  let m1 := fst (map_of st s true) in
+  let tg := tagged (source s) (prov s) 1 0 in
+  let segs := match m1 with Some m => rsegs_of_map m | None => [] end in
+  forallb (ChkProv.seg_ok tg) segs = true /\ forallb (byte_ok segs) tg = true.
+Proof. exact ProvConcatSegs.concat_c04_cols. Qed.
+Print Assumptions C04_concat_columns.
+
+(* columns = false: every output line is attributed to the file and line of its first original text *)
+Theorem C04_concat_lines : forall st s,
+  ProvConcatBytes.cshape s = true -> treeA s = true -> ProvConcatLines.fields_small_lines st s ->
+  let m0 := fst (map_of st s false) in
+  let tg := tagged (source s) (prov s) 1 0 in
+  let segs0 := match m0 with Some m => rsegs_of_map m | None => [] end in
+  forallb (line_ok tg segs0) tg = true.
+Proof. exact ProvConcatLines.concat_c04_lines. Qed.
+Print Assumptions C04_concat_lines.
+
+(* all clauses of the checker - including `sources` / `sourcesContent`: no duplicate, every file with
+   surviving text listed with its content, None only when no original text survives - hold of the
+   model's own observations of every such tree *)
+Theorem C04_concat_trees : forall s,
+  ProvConcatBytes.cshape s = true -> c04_domain s = true ->
+  ProvConcatBytes.fields_small [] s -> ProvConcatLines.fields_small_lines [] s ->
+  chk_C04 s (api_tree s []) = 0.
+Proof. exact ProvConcatLines.concat_chk_C04. Qed.
+Print Assumptions C04_concat_trees.
